@@ -143,6 +143,95 @@ Theorem C09_history_wf : forall fmt ops r n, rec_wf fmt r n ->
 Proof. exact run_wf. Qed.
 Print Assumptions C09_history_wf.
 
+(* ---------------- round 4: WORLDS — the property across the record objects the API hands out (Model/SubFieldRec.v) ----------------
+   wstep w o: one operation in a world of objects = (memory, positions).  For an assignment o on object a
+   (wop_target o = Some a; the single-record operation it performs is act_res w a (wop_action w o), i.e.
+   `step (obj_fmt w a) (obj_read w a) op` for WAssign a op - all of the theorems above apply to it): *)
+
+(* the object assigned to reads exactly the result of the single-record operation, whether it was written through to
+   the shared memory or (longer record) moved to memory of its own; the outcome (error) is that operation's *)
+Theorem C09_world_target : forall w o a, wop_target o = Some a -> wwf w -> (a < length (snd w))%nat ->
+  let res := act_res w a (wop_action w o) in
+  snd (wstep w o) = snd res
+  /\ rec_wf (obj_fmt w a) (fst res) (rec_len (fst res))
+  /\ (length (snd (obj_at w a)) <= rec_len (fst res))%nat
+  /\ length (snd (obj_at (fst (wstep w o)) a)) = rec_len (fst res)
+  /\ (forall c i, In c (fmt_cols (obj_fmt w a)) -> (i < rec_len (fst res))%nat ->
+        ocell (fst (wstep w o)) a c i = nth i (col_get (fst res) c) 0).
+Proof. exact world_target. Qed.
+Print Assumptions C09_world_target.
+
+Theorem C09_world_assign_is_step : forall w a o,
+  act_res w a (wop_action w (WAssign a o)) = step (obj_fmt w a) (obj_read w a) o.
+Proof. exact act_assign. Qed.
+Print Assumptions C09_world_assign_is_step.
+
+Theorem C09_world_copy_from_is_step : forall w a s plain,
+  act_res w a (wop_action w (WCopyFrom a s plain)) = step (obj_fmt w a) (obj_read w a) (OCopy (obj_fmt w s) (obj_read w s) plain).
+Proof. exact act_copy_from. Qed.
+Print Assumptions C09_world_copy_from_is_step.
+
+(* NOWHERE ELSE: a point of ANOTHER object that is not one of the addressed points (other memory - a chunk read
+   before, a copy, a selection, a converted record - or the same memory at a position a does not address) keeps every
+   packed byte, and the object keeps its memory and positions *)
+Theorem C09_world_isolated : forall w o a b c j, wop_target o = Some a -> wwf w -> (b < length (snd w))%nat -> b <> a ->
+  (j < length (snd (obj_at w b)))%nat ->
+  fst (obj_at w b) <> fst (obj_at w a) \/ ~ In (nth j (snd (obj_at w b)) 0%nat) (snd (obj_at w a)) ->
+  obj_at (fst (wstep w o)) b = obj_at w b /\ ocell (fst (wstep w o)) b c j = ocell w b c j.
+Proof. exact world_isolated. Qed.
+Print Assumptions C09_world_isolated.
+
+(* the same on memory: only cells of a's memory at a's positions are written; no memory changes its format *)
+Theorem C09_world_memory_frame : forall w o a k c p, wop_target o = Some a -> (k < length (fst w))%nat ->
+  k <> fst (obj_at w a) \/ ~ In p (snd (obj_at w a)) ->
+  fst (buf_at (fst (wstep w o)) k) = fst (buf_at w k) /\ cell (fst (wstep w o)) k c p = cell w k c p.
+Proof. exact world_memory_frame. Qed.
+Print Assumptions C09_world_memory_frame.
+
+(* EXACTLY WHERE B IS A VIEW OF THE ADDRESSED POINTS: point j of b is point i of a (same memory, same position) and
+   the record did not grow: b reads the new byte of a's point i *)
+Theorem C09_world_seen : forall w o a b c i j, wop_target o = Some a -> wwf w -> (a < length (snd w))%nat ->
+  fst (obj_at w b) = fst (obj_at w a) ->
+  (j < length (snd (obj_at w b)))%nat -> (i < length (snd (obj_at w a)))%nat ->
+  nth j (snd (obj_at w b)) 0%nat = nth i (snd (obj_at w a)) 0%nat ->
+  let res := act_res w a (wop_action w o) in
+  rec_len (fst res) = length (snd (obj_at w a)) -> In c (fmt_cols (obj_fmt w a)) ->
+  ocell (fst (wstep w o)) b c j = nth i (col_get (fst res) c) 0.
+Proof. exact world_seen. Qed.
+Print Assumptions C09_world_seen.
+
+(* an operation that makes the record longer moves it to new memory: every other object keeps everything *)
+Theorem C09_world_grown : forall w o a b, wop_target o = Some a -> wwf w -> (a < length (snd w))%nat -> (b < length (snd w))%nat -> b <> a ->
+  rec_len (fst (act_res w a (wop_action w o))) <> length (snd (obj_at w a)) ->
+  fst (obj_at (fst (wstep w o)) a) = length (fst w)
+  /\ obj_at (fst (wstep w o)) b = obj_at w b /\ obj_read (fst (wstep w o)) b = obj_read w b.
+Proof. exact world_grown. Qed.
+Print Assumptions C09_world_grown.
+
+(* creating an object (a chunk, a read, a copy, a selection, a slice, a conversion) changes no existing object ... *)
+Theorem C09_world_create : forall w o b, wop_target o = None -> wwf w -> (b < length (snd w))%nat ->
+  obj_at (fst (wstep w o)) b = obj_at w b /\ obj_read (fst (wstep w o)) b = obj_read w b.
+Proof. exact wstep_create. Qed.
+Print Assumptions C09_world_create.
+
+(* ... and a record with memory of its own gets memory that no existing object addresses (so, by C09_world_isolated,
+   no assignment on it reaches them and none on them reaches it); a slice is the view it says *)
+Theorem C09_world_fresh : forall w o, snd (wstep w o) = None ->
+  match o with
+  | WNew _ _ | WGather _ _ | WConv _ _ _ =>
+    length (snd (fst (wstep w o))) = S (length (snd w)) /\ fst (obj_at (fst (wstep w o)) (length (snd w))) = length (fst w)
+  | WSlice a chain =>
+    obj_at (fst (wstep w o)) (length (snd w)) = (fst (obj_at w a), view_sub (snd (obj_at w a)) (view_chain (length (snd (obj_at w a))) chain))
+  | _ => True
+  end.
+Proof. exact wstep_fresh. Qed.
+Print Assumptions C09_world_fresh.
+
+(* histories of such steps keep the world well formed (every object addresses distinct existing points) *)
+Theorem C09_world_history_wf : forall ops w, wwf w -> wrun_ok w ops -> Forall (fun s => wwf (fst s)) (wrun w ops).
+Proof. exact wrun_wf. Qed.
+Print Assumptions C09_world_history_wf.
+
 Example C09_nonvacuous :
   In (6, "scanner_channel"%string, "classification_flags"%string, 48) all_sub_fields
   /\ sf_assign 48 0xCF 2 = Ok 0xEF /\ sf_assign 48 0xCF 4 = Err EOverflow /\ sf_assign 48 0xCF (-1) = Err EOverflow
@@ -154,5 +243,17 @@ Example C09_nonvacuous :
      = [([("bit_fields"%string, [0xF9; 2; 3]); ("raw_classification"%string, [0xAA; 0x55; 0])], None);
         ([("bit_fields"%string, [0xF9; 2; 3]); ("raw_classification"%string, [0xAA; 0x55; 9])], None);
         ([("bit_fields"%string, [0xF9; 2; 3]); ("raw_classification"%string, [0xAA; 0x55; 9])], Some EOverflow);
-        ([("bit_fields"%string, [0x12; 0x34; 0x56]); ("raw_classification"%string, [1; 2; 3])], None)].
+        ([("bit_fields"%string, [0x12; 0x34; 0x56]); ("raw_classification"%string, [1; 2; 3])], None)]
+  (* a world: two chunks (objects 0, 1), a strided slice of chunk 0 (object 2), a copy of chunk 0 (object 3); an assignment
+     through the slice reaches chunk 0 at points 0 and 2 and nothing else; a longer assignment on the slice detaches it *)
+  /\ (let w0 : world := ([], []) in
+      let r := map fst (wrun w0
+        [WNew 1 [("bit_fields"%string, [0xFF; 0xFF; 0xFF]); ("raw_classification"%string, [0; 0; 0])];
+         WNew 1 [("bit_fields"%string, [0xFF; 0xFF; 0xFF]); ("raw_classification"%string, [0; 0; 0])];
+         WSlice 0 [[0; 2]%nat]; WGather 0 [0; 1; 2]%nat;
+         WAssign 2 (OView "return_number" [] [(0%nat, 1); (1%nat, 2)]);
+         WAssign 2 (OSeq "return_number" [3; 3; 3])]) in
+      map (fun w => map (fun b => col_get (obj_read w b) "bit_fields") [0; 1; 2; 3]%nat) (skipn 4 r)
+      = [[[0xF9; 0xFF; 0xFA]; [0xFF; 0xFF; 0xFF]; [0xF9; 0xFA]; [0xFF; 0xFF; 0xFF]];
+         [[0xF9; 0xFF; 0xFA]; [0xFF; 0xFF; 0xFF]; [0xFB; 0xFB; 0x03]; [0xFF; 0xFF; 0xFF]]]).
 Proof. vm_compute. repeat split; try reflexivity. repeat (first [left; reflexivity | right]). Qed.
